@@ -60,7 +60,7 @@ When finished, restore the worktree to a clean state (`git checkout -- .`), but 
 
 TAIL = '''
 
-PRACTICAL NOTE: other jobs are running on this machine. The suite test `test_tokio_with_io_disabled` is sensitive to machine load; if it is the only failure, re-run that one test alone (`cargo test -p turmoil --offline test_tokio_with_io_disabled`) before concluding anything. Limit cargo to 4 jobs (`-j 4`) to be a good neighbour.'''
+PRACTICAL NOTE: other jobs are running on this machine. The suite test `test_tokio_with_io_disabled` is sensitive to machine load; if it is the only failure, re-run that one test alone (`cargo test -p turmoil --offline test_tokio_with_io_disabled`) before concluding anything. Limit cargo to 4 jobs (`-j 4`) to be a good neighbour. NEVER use `git stash` (the stash list is shared with other jobs working in sibling worktrees of the same repository): to compare with the unmodified tree, save your change with `git diff > /some/file` inside your output directory and use `git checkout -- .` / `git apply`. Disk space is limited: do not create additional target directories or copies of the repository.'''
 
 os.makedirs(f"{base}/prompts", exist_ok=True)
 for l in open('/verif/properties.jsonl'):
